@@ -69,6 +69,9 @@ EqS(a, num, den, tol) ==
        KS \otimes ((Atol \otimes DAbs(den)) \oplus (tol \otimes DMax(DAbs(a \otimes den), DAbs(num)))))
 EqS1(a, b, tol) == EqS(a, b, One, tol)
 TolS(x, tol)    == KS \otimes (Atol \oplus (tol \otimes DAbs(x)))
+\* solver class for a POWER (a product V x I of two iterates): the solver's absolute term 1e-8 applies to each voltage
+\* and each current, so a power may be off by 1e-8 x (the voltages + the currents involved), plus the relative part
+TolP(vs, is, p, tol) == KS \otimes ((Atol \otimes (DAbs(vs) \oplus DAbs(is) \oplus One)) \oplus (tol \otimes DAbs(p)))
 \* a = b within the exact class; sc = sum of |terms|, th = throughput of the row
 EqX(a, b, sc, th) == DLeq(DAbs(a \ominus b), (DE(1, -9) \otimes DAbs(sc)) \oplus (DE(1, -12) \otimes DAbs(th)))
 
